@@ -29,7 +29,7 @@ type c04VP struct{ o, n string }
 var c04Pairs = []c04VP{
 	{"a", "a"}, {"x\n---\ny", "x\n---\ny"},
 	{"a", "b"}, {"a", ""}, {"", "a"}, {"a", "a\nb\nc"}, {"a\nb\nc", "a"}, {"a", "---"}, {"---", "a"},
-	{"a", "$1"}, {"a", "${a}%d\\1$$"}, {"a", "t\n---\n---\nb"}, {"t\n---\n---\nb", "a"}, {"x\n--- \ny", "x\n--- \nz"}, {"a\n-----\nb\nfoo ---\nc", "n"}, {"a", "a\n"}, {"a\n", "a"}, {"a", "[TestA - 2]"},
+	{"a", "$1"}, {"a", "${a}%d\\1$$"}, {"a", "t\n---\n---\nb"}, {"a", "head\n\n[TestA - 2]\ntail"}, {"head\n\n[TestB - 1]\ntail", "a"}, {"t\n---\n---\nb", "a"}, {"x\n--- \ny", "x\n--- \nz"}, {"a\n-----\nb\nfoo ---\nc", "n"}, {"a", "a\n"}, {"a\n", "a"}, {"a", "[TestA - 2]"},
 }
 
 var c04PairsThorough = []c04VP{
